@@ -190,6 +190,8 @@ func (q *sreq) render(rng *rand.Rand) []byte {
 	key := validKey(rng)
 	q.keyValue = key
 	switch q.Key {
+	case "latebad", "earlybad": // a valid key, and another occurrence of the header that is not 24 characters long
+		lines = append(lines, "Sec-WebSocket-Key: "+key)
 	case "len23":
 		q.keyValue = key[:23]
 		lines = append(lines, "Sec-WebSocket-Key: "+q.keyValue)
@@ -262,6 +264,12 @@ func (q *sreq) render(rng *rand.Rand) []byte {
 	}
 	for k, i := range idx {
 		lines[i] = extLines[k]
+	}
+	switch q.Key {
+	case "latebad": // after every other header line
+		lines = append(lines, "Sec-WebSocket-Key: "+key[:23])
+	case "earlybad": // before every other header line
+		lines = append([]string{"Sec-WebSocket-Key: " + key[:22]}, lines...)
 	}
 	ver := "HTTP/" + q.Version
 	if q.Version == "garbage" {
